@@ -30,6 +30,10 @@ func init() {
 				r.Rule("R03g", "SIBLING-TEST: in the hashing core siblinghood is never concluded from rightSib(a) == b alone (rightSib(a) == a for a right child); the test is joined with 'a is a left child'")
 				checkSiblingTests(p, r, "R03g", resolveVerifyAnchors(p))
 			}},
+			{ID: "R03i", Statement: "both inputs of the parent-hash step are supplied on every path", Run: func(p *Program, r *Report) {
+				r.Rule("R03i", "SIBLING-ALWAYS-SUPPLIED: in the hashing core neither hash input of the parent-hash step can be the default value of its variable (a path that assigns no sibling because the proof ran out)")
+				checkSiblingSupplied(p, r, "R03i", resolveVerifyAnchors(p))
+			}},
 			{ID: "R03h", Statement: "candidates are matched by position", Run: func(p *Program, r *Report) {
 				r.Rule("R03h", "CANDIDATE-POSITIONS-USED: a verifier matches each recomputed root with the root of its own tree, i.e. it uses the positions the core computed the candidates at")
 				checkCandidatePositionsUsed(p, r, "R03h", resolveVerifyAnchors(p))
